@@ -197,7 +197,8 @@ def policy_network_apply(I, rep, U):
             'observations are not normalised with the supplied statistics before the network: '
             + diff_report(got, want), where=f.where(apply_node), construct='make_policy_network.apply')
   # dict observations: obs[obs_key] after preprocessing
-  pre2 = ('prim', 'pre', lambda obs, pp: {k: elemwise(lambda v: uf('preprocess', v, pp), x) for k, x in obs.items()})
+  pre2 = ('prim', 'pre', lambda obs, pp: ({k: elemwise(lambda v: uf('preprocess', v, pp), x) for k, x in obs.items()}
+                                          if isinstance(obs, dict) else elemwise(lambda v: uf('preprocess', v, pp), obs)))
   env2 = {'v': {'preprocess_observations_fn': pre2, 'policy_module': module, 'obs_key': 'state'}, 'p': None}
   I.contracts[('builtin', 'isinstance_array')] = None
   got2 = I.apply(Closure(apply_node, env2, N, 'apply'), [proc, polp, {'state': obs, 'other': symarr('z', (2,))}], {})
@@ -206,8 +207,33 @@ def policy_network_apply(I, rep, U):
             where=f.where(apply_node))
 
 
+def policy_network_keys(I, rep, U):
+  """R20.6 with dict observations, a policy key other than the default and REAL nested running statistics: the network
+  must see normalize(obs)[key] = (obs[key] - mean[key]) / std[key] -- the statistics of ITS entry."""
+  N = 'brax.training.networks'
+  RS = 'brax.training.acme.running_statistics'
+  f = U.func(N + '.make_policy_network')
+  outer = fn(N, 'make_policy_network')
+  apply_node = next((s_ for s_ in outer.node.body if isinstance(s_, ast.FunctionDef) and s_.name == 'apply'), None)
+  if apply_node is None:
+    raise AnalysisError('anchor make_policy_network.apply not found')
+  module = Struct('MLP', {'apply': ('prim', 'mapply', lambda params, x: elemwise(lambda v: uf('mlp', params, v), x))})
+  polp = symarr('pp', (2,))
+  obs = {'state': symarr('os', (3,)), 'proprio': symarr('op', (3,))}
+  stats = Struct('NestedMeanStd', {'mean': {'state': symarr('ms', (3,)), 'proprio': symarr('mp', (3,))},
+                                   'std': {'state': symarr('ss', (3,)), 'proprio': symarr('sp', (3,))}}, home=RS)
+  for key in ('proprio', 'state'):
+    env = {'v': {'preprocess_observations_fn': fn(RS, 'normalize'), 'policy_module': module, 'obs_key': key}, 'p': None}
+    got = I.apply(Closure(apply_node, env, N, 'apply'), [stats, polp, obs], {})
+    want = elemwise(lambda v: uf('mlp', polp, v), (obs[key] - stats.f['mean'][key]) / stats.f['std'][key])
+    rep.check(same(got, want), 'R20.6', 'dict observations, policy key %r: the network sees (obs[key] - mean[key]) / std[key]' % key,
+              lambda: 'the policy input is not its own entry normalised with its own statistics: ' + diff_report(got, want),
+              where=f.where(apply_node), construct='running_statistics.normalize with nested mean / std; obs keys state, proprio')
+
+
 def run(U, rep, tier):
   I = new_interp(U.repo)
+  policy_network_keys(I, rep, U)
   if tier == 'quick':
     grid = [((), 2)]
   else:
